@@ -164,9 +164,16 @@ def check_graph(P, g, mol, G):
                         adm = []
                     adm = [b for b in adm if pos(b.weight)]
                 P.check(set(trans_edges) == set(adm), "edge set = admissible partners")
-                for b in adm:
-                    if b in trans_edges:
-                        P.eq(trans_edges[b], 1, "trans_prob edge equals reference law")
+                if isinstance(el, Stochastic) and len(adm) > 1:
+                    # the token is attached by one of its fitting descriptors, picked in proportion to their weights
+                    S = total([b.weight for b in adm])
+                    for b in adm:
+                        if b in trans_edges:
+                            P.check(trans_edges[b] * S == b.weight, "trans_prob edge equals reference law")
+                else:
+                    for b in adm:
+                        if b in trans_edges:
+                            P.eq(trans_edges[b], 1, "trans_prob edge equals reference law")
         else:
             P.check(not trans_edges, "the last element has no transition edges")
 
